@@ -165,6 +165,11 @@ def extra_instances():
     add(Mol([Token(["OC", _imp("$", w=0)]), S("[$]", ["[$]CC[$]"], ["[$][H]"], "[$]", g(30)),
              Token([_imp("$"), "CO", _imp("$", w=0)]), S("[$]", ["[$]CS[$]"], ["[$]F"], "[$]", g(40)),
              Token([_imp("$"), "N"])], name="implicit-connector-dollar"))
+    # two $-objects in a row, both with end groups (an end group's descriptor is compatible with the right terminal)
+    add(M("C[$]", S("[$]", ["[$]CC[$]"], ["[$][H]"], "[$]", g(30)), S("[$]", ["[$]CO[$|0.5|]", "[$]CS[$]"], ["[$]F"], "[$]", g(40)), "[$]N",
+          name="dollar-diblock-endgroups"))
+    add(M("C[>]", S("[>]", ["[<]CC[>]"], ["[>]N", "[<][H]"], "[<]", g(30)), S("[>]", ["[<]CO[>|3|]", "[<]CS[>]"], ["[<]F"], "[<]", g(40)), "[<]O",
+          name="directed-diblock-endgroups"))
     # three consecutive objects without connector, ids
     add(M("C[>1]", S("[>1]", ["[<1]CC[>1]"], [], "[<1]", g(30)), S("[>1]", ["[<1]CO[>1]"], [], "[<1]", g(30)),
           S("[>1]", ["[<1]CS[>1]"], [], "[<1]", g(40)), "[<1]F", name="triblock-ids"))
